@@ -37,10 +37,16 @@ def plan(tier: str, seed: int):
     if tier == "quick":
         return [{"name": f"s{i}", "engine": "jit",
                  "args": {"n": 160, "tables": 14}, "timeout": 1500}
-                for i in range(4)]
+                for i in range(4)] + [
+            # ... and once in an interpreter started with -O
+            {"name": "opt", "engine": "opt",
+             "args": {"n": 100, "tables": 8}, "timeout": 1500}]
     return [{"name": f"s{i}", "engine": "jit",
              "args": {"n": 12000, "tables": 1000}, "timeout": 3400}
-            for i in range(16)]
+            for i in range(14)] + [
+        {"name": f"opt{i}", "engine": "opt",
+         "args": {"n": 6000, "tables": 500}, "timeout": 3400}
+        for i in range(2)]
 
 
 def same(a, b, path=""):
